@@ -175,6 +175,12 @@ type client struct {
 	sentM sync.Mutex // protects sent
 	sent  map[uint32]hrpc.Call
 
+	// writeM serializes the writes of whole requests: requests are written by the
+	// batching goroutine and, for unbatched calls, directly by callers' goroutines,
+	// and a request with cellblocks is several Write calls on a conn that is not
+	// a *net.TCPConn (custom dialer)
+	writeM sync.Mutex
+
 	// inFlight is number of rpcs sent to regionserver awaiting response
 	inFlightM sync.Mutex // protects inFlight and SetReadDeadline
 	inFlight  uint32
@@ -666,12 +672,14 @@ func (c *client) send(rpc hrpc.Call) (uint32, error) {
 
 	rpcSize.WithLabelValues(c.Addr()).Observe(float64(uint32(len(b)) + cellblocksLen))
 	c.inFlightAdd()
+	c.writeM.Lock()
 	if cellblocks != nil {
 		bfs := append(net.Buffers{b}, cellblocks...)
 		_, err = bfs.WriteTo(c.conn)
 	} else {
 		err = c.write(b)
 	}
+	c.writeM.Unlock()
 	if err != nil {
 		return id, ServerError{err}
 	}
